@@ -21,20 +21,35 @@ theorem restore_stops_at_refusal (φ : Oracle) (cwd : CPath) (e : Entry) (rest :
     let r := run φ (restoreMany cwd false (e :: rest)) s
     r.1 = .error .EEXIST ∧ r.2.trace = s.trace ∧ r.2.fs = s.fs := Proofs.C06.restore_stops_at_refusal φ cwd e rest s h
 
-/-- The command then exits non-zero with a message. -/
-theorem refusal_exit_nonzero (φ : Oracle) (c : ReadCfg) (o : RestoreOpts) (reply : Bytes) (s : RunState)
+/-- The command then exits non-zero with a message: whenever the "die" event was emitted by this
+    run (`hfresh`: it was not in the output before), the exit status is 1.
+    As first stated (without `hfresh`) the claim is FALSE for a trivial reason: it quantifies over
+    every initial run state, and one whose `outs` already contain `stderr "die" []` keeps it while
+    e.g. an empty trash makes the command exit 0. -/
+theorem refusal_exit_nonzero_partial (φ : Oracle) (c : ReadCfg) (o : RestoreOpts) (reply : Bytes) (s : RunState)
+    (hfresh : Out.stderr "die" [] ∉ s.outs)
     (r : CmdResult) (s' : RunState) (hr : run φ (runRestore c o (some reply)) s = (r, s'))
-    (hdie : Out.stderr "die" [] ∈ s'.outs) : r.exit = 1 := Proofs.C06.refusal_exit_nonzero φ c o reply s r s' hr hdie
+    (hdie : Out.stderr "die" [] ∈ s'.outs) : r.exit = 1 :=
+  Proofs.C06.refusal_exit_nonzero_partial φ c o reply s hfresh r s' hr hdie
 
 /-- With --overwrite an existing non-directory at the destination is replaced by a non-directory
-    payload (same volume: `rename` replaces atomically). -/
-theorem overwrite_replaces_nondir (fs : FS) (src dst info : CPath) (nsrc ndst : Node)
+    payload (same volume: `rename` replaces atomically) — PROVIDED the payload is not below the
+    destination (`hds`) and the info path is not a directory containing the destination (`hid`).
+    As first stated (with `hinfo` only) the claim is FALSE, twice:
+      * `info = /d` a directory, `dst = /d/f`: after the rename `remove_file(info)` falls back to
+        `rmtree(/d)` and deletes the restored file (`get dst = none`);
+      * in an ill-formed tree where the file `dst = /a` has the "child" `src = /a/b`, which itself
+        has the "child" `/a/b/b`: `rename` moves the subtree, and `/a/b` is occupied again by the
+        former `/a/b/b` (`get src ≠ none`). -/
+theorem overwrite_replaces_nondir_partial (fs : FS) (src dst info : CPath) (nsrc ndst : Node)
     (hs : fs.get src = some nsrc) (hd : fs.get dst = some ndst) (hsd : nsrc.isDir = false) (hdd : ndst.isDir = false)
     (hdl : ndst.isLink = false)
     (hnm : fs.isMount src = false ∧ fs.isMount dst = false) (hdev : fs.dev (FS.parent src) = fs.dev (FS.parent dst))
     (hpar : fs.isDirAt (FS.parent dst) = true) (hne : src ≠ dst) (hnr : dst ≠ [])
-    (hname : ∀ n, dst.getLast? = some n → n.length ≤ 255) (hinfo : info ≠ dst ∧ info ≠ src) :
+    (hname : ∀ n, dst.getLast? = some n → n.length ≤ 255) (hinfo : info ≠ dst ∧ info ≠ src)
+    (hds : ¬ FS.under dst src = true) (hid : ¬ FS.under info dst = true) :
     let r := run noFaults (restoreCore (.ok src) (.ok dst) (.ok info)) { fs := fs }
-    r.2.fs.get dst = some nsrc ∧ r.2.fs.get src = none := Proofs.C06.overwrite_replaces_nondir fs src dst info nsrc ndst hs hd hsd hdd hdl hnm hdev hpar hne hnr hname hinfo
+    r.2.fs.get dst = some nsrc ∧ r.2.fs.get src = none :=
+  Proofs.C06.overwrite_replaces_nondir_partial fs src dst info nsrc ndst hs hd hsd hdd hdl hnm hdev hpar hne hnr hname hinfo hds hid
 
 end TrashVerif.C06
